@@ -73,6 +73,15 @@ func cat(xs ...[]evT) []evT {
 }
 func one(e evT) []evT { return []evT{e} }
 
+// finishAll: every caller alone for 6 steps (no-ops for callers that have returned)
+func finishAll(k int) []evT {
+	var e []evT
+	for i := 0; i < k; i++ {
+		e = append(e, runN(i, 6)...)
+	}
+	return e
+}
+
 const sec = uint64(1000000000)
 
 // Regression witnesses: the schedules that broke the former load / CAS-if-idle / Add / rollback
@@ -94,7 +103,7 @@ func witnessD8Old(id int) concCase {
 			runN(1, 1),
 			one(clock(t+5*sec/2)), runN(3, 4),
 			runN(1, 1),
-			runN(4, 4))}
+			runN(4, 4), finishAll(5))}
 }
 
 // witnessStale: lost CAS against a caller with an older clock reading.
@@ -110,7 +119,7 @@ func witnessStale(id int) concCase {
 			one(clock(t+3*sec)), runN(1, 2),
 			runN(0, 2),
 			runN(1, 3),
-			runN(2, 3))}
+			runN(2, 3), finishAll(3))}
 }
 
 // witnessD8: the D8 situation in the steps of the CAS loop (Coq: C10_conc_d8_regression).
@@ -126,7 +135,7 @@ func witnessD8(id int) concCase {
 			runN(1, 1),
 			one(clock(t+5*sec/2)), runN(3, 3),
 			runN(1, 1),
-			one(clock(t+16*sec/5)), runN(4, 3))}
+			one(clock(t+16*sec/5)), runN(4, 3), finishAll(5))}
 }
 
 func genConc(r *rng.R, id int) concCase {
@@ -310,8 +319,9 @@ func monitorConc(c concCase, o concObs, rep *emit.Report) (overlap bool) {
 		return
 	}
 	if !o.Finished {
-		fail("C10_conc_lock_free", "caller-did-not-finish-in-six-steps-alone", "a caller needed more than 6 steps with nobody interfering")
-		return
+		// every generated schedule ends with 6 steps of each caller alone; the outcomes below are
+		// those after letting the late callers run on; reported unless another clause breaks first
+		defer fail("C10_conc_lock_free", "caller-did-not-finish-in-six-steps-alone", "a caller needed more than 6 steps with nobody interfering")
 	}
 	type gr struct {
 		tid  int
